@@ -6,6 +6,7 @@ structure WFcfg (c : Cfg) : Prop where
   aliases : c.aliases.Pairwise (fun a b => leKey b a = false)
   wiring : ∀ nc ∈ c.components, nc.2.inputs.Pairwise (fun a b => leKey b a = false)
   types : ∀ i ∈ c.inputs, ∀ ts, i.types = some ts → ts.Pairwise (fun a b => decide (b ≤ a) = false)
+  literals : c.literals.Pairwise (fun a b => decide (b.1 ≤ a.1) = false)          -- listed by (content-derived) name
 
 theorem resolve_fromCfg (inputs : List (String × String)) (name code : String) (config : Option String) :
     resolve [] { name := name, code := code, config := config, params := inputs.map (·.1), edges := inputs } = inputs := by
@@ -52,11 +53,12 @@ theorem roundtrip (c : Cfg) (h : WFcfg c) : buildCfg .repaired (fromCfg .repaire
   cases c with
   | mk name version inputs components aliases default literals =>
     simp only [buildCfg, fromCfg, Cfg.mk.injEq, true_and, and_true]
-    refine ⟨?_, ?_, ?_⟩
+    refine ⟨?_, ?_, ?_, ?_⟩
     · exact map_id_of_forall _ _ (fun i hi => sortTypes_id i (h.types i hi))
     · rw [List.map_map]
       exact map_id_of_forall _ _ (fun nc hnc => comp_roundtrip nc (h.wiring nc hnc))
     · exact sortBy_of_strict leKey aliases h.aliases
+    · exact sortBy_of_strict _ literals h.literals
 
 /-- as it stands, `from_config` forgets the pipeline name, so a named pipeline does not round-trip -/
 example : (buildCfg .asIs (fromCfg .asIs
